@@ -2,6 +2,7 @@ import LhasaV.Lemmas.HeaderSound
 import LhasaV.Lemmas.StreamProps
 import LhasaV.Lemmas.ReaderLedger
 import LhasaV.Lemmas.ToolNoFault
+import LhasaV.Lemmas.ToolNoFaultT
 /-!
 # C08 — no archive bytes can make the library or tool touch invalid memory or abort
 -/
@@ -82,5 +83,17 @@ theorem visited_state_ok {A : Array UInt8} {rd : Reader.St} (h : ToolNoFault.Ok 
     (∀ o, rd.dec = some o → ∃ mr, Dec.SafeM o.d mr ∧
       ∀ ist, o.innerSt = some ist → Dec.Clean o.d ist.inner ∧ ist.pending.length ≤ mr) :=
   ToolNoFault.ok_spelled h
+
+/-- `lha t` (and the message-bearing loop of `lha x`): the fault flag is never set, for every
+archive, options, file system and answers; every reader state the loop visits is `Ok` -/
+theorem test_run_no_fault (archive : Array UInt8) (o : Extract.Opts) (fs : Fs.St) (answers : Bytes) :
+    (Messages.run .test archive o fs answers).fault = false ∧
+    ToolNoFault.MVisits (ToolNoFault.Ok archive) .test (Contain.runFuel archive)
+      (ToolNoFault.mrunInit archive o fs answers) :=
+  ToolNoFault.test_run_no_fault archive o fs answers
+
+theorem fault_flag_never_set (cmd : Messages.Cmd) (archive : Array UInt8) (o : Extract.Opts) (fs : Fs.St)
+    (answers : Bytes) : (Messages.run cmd archive o fs answers).fault = false :=
+  ToolNoFault.fault_flag_never_set cmd archive o fs answers
 
 end LhasaV.Props.C08
